@@ -243,12 +243,19 @@ type access struct {
 	label string
 	write bool
 	isPtr bool // expr already is a pointer to the location
+	// viaPtr: the location lies behind a pointer-typed field that may still be
+	// nil when the probe runs: the probe takes the address inside a closure
+	// and gives up if that panics
+	viaPtr bool
 }
 
 type fctx struct {
-	in    *inst
-	roots map[string]*structInfo // identifiers that denote (pointers to) structs of this file
-	ptrs  map[string]bool        // other pointer-typed parameters
+	lastViaPtr  bool     // the last resolve went through a pointer-typed field
+	lastPtrExpr ast.Expr // ... namely this one (itself a location that is read)
+	lastPtrName string
+	in          *inst
+	roots       map[string]*structInfo // identifiers that denote (pointers to) structs of this file
+	ptrs        map[string]bool        // other pointer-typed parameters
 	// lastType is the declared type of the field the last successful resolve ended at
 	lastType ast.Expr
 }
@@ -320,6 +327,7 @@ func (c *fctx) resolve(e ast.Expr) (loc ast.Expr, label string, leaves []access,
 	si := c.roots[rootName]
 	var built ast.Expr = ast.NewIdent(rootName)
 	var names []string
+	c.lastViaPtr, c.lastPtrExpr, c.lastPtrName = false, nil, ""
 	for i, name := range chain {
 		ft, isField := si.fields[name]
 		if !isField {
@@ -350,6 +358,14 @@ func (c *fctx) resolve(e ast.Expr) (loc ast.Expr, label string, leaves []access,
 		if sub == nil {
 			return built, strings.Join(names, "."), nil, false, true
 		}
+		if _, isPtr := ft.(*ast.StarExpr); isPtr {
+			if i == len(chain)-1 {
+				// the pointer itself is what is read or written (mock.st = &state{},
+				// mock.st == nil): one location, nothing behind it is touched
+				return built, strings.Join(names, "."), nil, false, true
+			}
+			c.lastViaPtr, c.lastPtrExpr, c.lastPtrName = true, built, strings.Join(names, ".")
+		}
 		si = sub
 		if i == len(chain)-1 {
 			// the whole struct is accessed: every leaf field is
@@ -369,9 +385,11 @@ func (c *fctx) leavesOf(base ast.Expr, names []string, si *structInfo) []access 
 		if c.in.isSyncType(ft) {
 			continue
 		}
-		if sub := c.in.subStruct(ft); sub != nil {
-			out = append(out, c.leavesOf(e, nn, sub)...)
-			continue
+		if _, isPtr := ft.(*ast.StarExpr); !isPtr {
+			if sub := c.in.subStruct(ft); sub != nil {
+				out = append(out, c.leavesOf(e, nn, sub)...)
+				continue
+			}
 		}
 		out = append(out, access{expr: e, label: strings.Join(nn, ".")})
 	}
@@ -394,14 +412,18 @@ func (c *fctx) collect(e ast.Node, write bool, out *[]access) {
 			if sync {
 				return
 			}
+			if c.lastViaPtr {
+				// the pointer on the way is read
+				*out = append(*out, access{expr: c.lastPtrExpr, label: c.lastPtrName})
+			}
 			if leaves != nil {
 				for _, l := range leaves {
-					l.write = write
+					l.write, l.viaPtr = write, c.lastViaPtr
 					*out = append(*out, l)
 				}
 				return
 			}
-			*out = append(*out, access{expr: loc, label: label, write: write})
+			*out = append(*out, access{expr: loc, label: label, write: write, viaPtr: c.lastViaPtr})
 			return
 		}
 		if _, _, leaves, _, okX := c.resolve(t.X); okX && leaves != nil {
@@ -513,6 +535,16 @@ func (c *fctx) probes(acc []access) []ast.Stmt {
 		}
 		seen[k] = true
 		c.in.used = true
+		if a.viaPtr {
+			out = append(out, &ast.ExprStmt{X: &ast.CallExpr{
+				Fun: &ast.SelectorExpr{X: ast.NewIdent(simrtName), Sel: ast.NewIdent(fn + "Any")},
+				Args: []ast.Expr{&ast.FuncLit{
+					Type: &ast.FuncType{Params: &ast.FieldList{}, Results: &ast.FieldList{List: []*ast.Field{{Type: ast.NewIdent("any")}}}},
+					Body: &ast.BlockStmt{List: []ast.Stmt{&ast.ReturnStmt{Results: []ast.Expr{ptrTo(a)}}}},
+				}, &ast.BasicLit{Kind: token.STRING, Value: strconv.Quote(a.label)}},
+			}})
+			continue
+		}
 		out = append(out, &ast.ExprStmt{X: &ast.CallExpr{
 			Fun:  &ast.SelectorExpr{X: ast.NewIdent(simrtName), Sel: ast.NewIdent(fn)},
 			Args: []ast.Expr{ptrTo(a), &ast.BasicLit{Kind: token.STRING, Value: strconv.Quote(a.label)}},
